@@ -4,6 +4,8 @@
 -/
 import Adsg.Model.Steps
 import Adsg.Model.Traversal
+import Adsg.Model.Cache
+import Adsg.Proofs.Cache
 import Adsg.Proofs.Closure
 import Adsg.Proofs.Steps
 import Adsg.Proofs.Traversal
@@ -160,5 +162,31 @@ theorem pruneStart_only_derivable (g : DSG) :
 
 def exPrune : DSG := { n := 8, derives := [(0,1),(4,3),(3,5),(5,4),(6,7),(7,2)], sel := [⟨1,[2,6]⟩, ⟨5,[0,1]⟩], start := [0], incompat := [(2,3)] }
 example : derivable exPrune = [0, 1, 2, 6, 7] := by decide
+
+/-! ### The confirmed-edge cache (graph/traversal.py:379-386, 445-450) -/
+
+/-- **A cache that only ever stores complete answers is transparent**: for every sequence of requests
+    (and resets / forced recomputations), in any order and with any repetitions, the answers handed out
+    through a per-node cache of `confirmedEdges g` are the freshly computed ones. This is the behaviour
+    of the code since fix 00072a1, which stores only the requested node's (complete) edge set. -/
+theorem confirmed_edge_cache_transparent (g : DSG) (ops : List (CacheOp Node)) :
+    (runCache (fun v : Node => v) (confirmedEdges g) ops []).1 = specOutputs (confirmedEdges g) ops :=
+  runCache_transparent (fun v : Node => v) (confirmedEdges g) (fun _ _ h => by rw [h]) ops []
+    (fun _ hp => nomatch hp)
+
+/-- … and from any store all of whose entries are complete. -/
+theorem confirmed_edge_cache_transparent_from (g : DSG) (st : Store Node (List (Node × Node)))
+    (hst : ∀ p ∈ st, p.2 = confirmedEdges g p.1) (ops : List (CacheOp Node)) :
+    (runCache (fun v : Node => v) (confirmedEdges g) ops st).1 = specOutputs (confirmedEdges g) ops :=
+  runCache_transparent (fun v : Node => v) (confirmedEdges g) (fun _ _ h => by rw [h]) ops st
+    (fun p hp => ⟨p.1, rfl, (hst p hp).symm⟩)
+
+/-- The completeness of the entries is necessary: a store holding a partial edge set for a node (what
+    the code before 00072a1 wrote for nodes traversed on the way) hands out a wrong answer. -/
+def exChain : DSG := { n := 3, derives := [(0, 1), (1, 2)], sel := [], start := [0], incompat := [] }
+theorem partial_entry_breaks_transparency :
+    (runCache (fun v : Node => v) (confirmedEdges exChain) [.get 0] [(0, [(0, 1)])]).1 ≠
+      specOutputs (confirmedEdges exChain) [.get 0] := by
+  decide
 
 end Adsg.C02
